@@ -1,6 +1,7 @@
 (* Correspondence checks for C04: the implementation's observation is part of each case. *)
 From Coq Require Import ZArith List Bool.
 From VC2 Require Import Base.PyZ Base.CorrLib Gen.StateRec Model.EncoderSlices.
+From VC2 Require Export Corr.C14.
 Import ListNotations.
 Open Scope Z_scope.
 
